@@ -1,4 +1,5 @@
 import Rangers.Proofs.DecimalFormat
+import Rangers.Proofs.DecimalTotal
 /-!
 # C18 — decimal amount strings and 18-decimal integers convert without loss
 
@@ -297,6 +298,72 @@ theorem evm_value_unchanged (v : Int) (h0 : 0 ≤ v) (h1 : v < 2 ^ 256) : evmVal
 
 example : evmValue 115792089237316195423570985008687907853269984665640564039457584007913129639935
     = .ok 115792089237316195423570985008687907853269984665640564039457584007913129639935 := by decide +kernel
+
+/-! ## totality -/
+
+/-- **No `ErrNaN` panic.** For every input string and every decimal count
+    `strToBigInt` returns a value or an error; the 0·Inf / 0/0 / Inf/Inf panics of
+    `big.Float.Mul`/`Quo` are unreachable (`pow5` is never zero, the parsed float is
+    never NaN, the scale factor is finite). -/
+theorem strToBigInt_never_panics (s : Str) (d : Int) : strToBigInt s d ≠ .panic :=
+  strToBigInt_ne_panic s d
+
+example : strToBigInt "1e1000000000".toList 18 = .ok 0 ∧ strToBigInt "1e-1000000000".toList 18 = .ok 0 := by
+  decide +kernel
+
+/-- `pow5` (the only place an infinity can arise next to the parsed mantissa) is
+    always a positive finite float or `+Inf`. -/
+theorem pow5_positive_or_inf (n : Nat) : posOrInf (pow5 n) := pow5_posOrInf n
+
+/-- The formatter's output always parses: `FormatDecimalForERC20` /
+    `FormatDecimalForRocket` never return the nil pointer their callers would
+    dereference (`.Bytes()`, `Add`), whatever the decimal count (size caveat: the
+    exponent range of `big.Float`, i.e. fewer than 10^6 bits / digits). -/
+theorem format_never_nil (n : Int) (d : Int) (h : n.natAbs < 2 ^ 1000000) (hd : d ≤ 1000000) :
+    (∃ v, formatERC20 n d = .ok v) ∧ (∃ v, formatRocket n d = .ok v) := by
+  have hbits : bitLen n.natAbs ≤ 1000000 := bitLen_le_of_lt h
+  have key : ∀ (p : Nat) (dd : Int), p ≤ 1000000 → ∃ v, strToBigInt (bigIntToStr n (p : Int)) dd = .ok v := by
+    intro p dd hp
+    obtain ⟨first, last, hs, hd1, hd2, hlen, hne, hdot, hval⟩ := bigIntToStr_shape n p
+    have hne' : first ++ last ≠ [] := by intro h; exact hne (List.append_eq_nil_iff.mp h).1
+    have hsne : signStr (if n < 0 then some true else none) ++ plainBody first last (p != 0) ≠ [] := by
+      intro h
+      exact plainBody_ne_nil first last _ hne' hdot (List.append_eq_nil_iff.mp h).2
+    have hpf : ∃ t, parseFloat (bigIntToStr n (p : Int)) = some t := by
+      rw [hs, parseFloat_eq_scanFloat _ (plain_no_f _ first last _ hd1 hd2),
+        scanFloat_plain _ first last _ hd1 hd2 hdot hne' (by omega) (by rw [hval]; exact hbits)]
+      split <;> exact ⟨_, rfl⟩
+    obtain ⟨t, ht⟩ := hpf
+    have hnp := strToBigInt_ne_panic (bigIntToStr n (p : Int)) dd
+    unfold strToBigInt at hnp ⊢
+    rw [hs] at hnp ht ⊢
+    rw [if_neg hsne, ht] at hnp ⊢
+    dsimp only at hnp ⊢
+    cases hm : mul .away prec t (baseFloat dd) with
+    | nan => rw [hm] at hnp; simp at hnp
+    | zero b => exact ⟨_, rfl⟩
+    | inf b => exact ⟨_, rfl⟩
+    | fin b m e => exact ⟨_, rfl⟩
+  constructor
+  · unfold formatERC20
+    by_cases h0 : n = 0
+    · exact ⟨0, by simp [h0]⟩
+    · rw [if_neg h0]; unfold BigIntToStr; rw [if_neg h0]
+      exact key 18 d (by norm_num)
+  · unfold formatRocket
+    by_cases h0 : n = 0
+    · exact ⟨0, by simp [h0]⟩
+    · rw [if_neg h0]
+      unfold StrToBigInt
+      by_cases hneg : d < 0
+      · refine ⟨0, ?_⟩
+        unfold bigIntToStr
+        rw [if_pos hneg]
+        decide +kernel
+      · obtain ⟨p, rfl⟩ := Int.eq_ofNat_of_zero_le (by omega : 0 ≤ d)
+        exact key p 18 (by omega)
+
+example : formatRocket 5 40 = .ok 0 ∧ formatERC20 5 (-3) = .ok 0 := by decide +kernel
 
 /-! ## the bound is real -/
 
